@@ -183,6 +183,30 @@ class CallMixin:
             return range(*args)
         if name == 'dict' and not args:
             return dict(kwargs)
+        if name == 'map' and len(args) >= 2 and not kwargs:
+            # lazy, consumed once: folded to the element-wise application in order only where it is consumed on the spot
+            parent = getattr(node, '_parent', None)
+            once = (isinstance(parent, ast.Call) and any(a is node for a in parent.args)) \
+                or (isinstance(parent, ast.Assign) and parent.value is node and all(isinstance(t, (ast.Tuple, ast.List)) for t in parent.targets)) \
+                or (isinstance(parent, (ast.For, ast.comprehension)) and parent.iter is node) \
+                or (isinstance(parent, ast.Starred) and isinstance(getattr(parent, '_parent', None), ast.Call))
+            if not once:
+                raise Unsupported('map object that is not consumed on the spot: {}'.format(unparse(node)))
+            seqs = []
+            for a in args[1:]:
+                if isinstance(a, range) and len(a) <= 4096:
+                    a = list(a)
+                if isinstance(a, dict):
+                    a = list(a.keys())
+                if not isinstance(a, list):
+                    raise Unsupported('map over something that is not a folded sequence: {}'.format(unparse(node)))
+                seqs.append(a)
+            out = []
+            for items in zip(*seqs):
+                out.append(self.call_value(args[0], list(items), {}, st, node))
+                if st.dead:
+                    return None
+            return out
         if name in ('hex', 'bin', 'oct', 'repr', 'format', 'ascii'):
             return Opaque(name + '()')
         if name == 'str' and len(args) == 1:
@@ -196,6 +220,14 @@ class CallMixin:
                 return list(reversed(args[0]))
         raise Unsupported('call of {} ({})'.format(name, unparse(node)))
 
+    def call_value(self, callee, args, kwargs, st, node):
+        """apply a callable value of the analysed module"""
+        if isinstance(callee, FuncValue):
+            return self.run_function(callee, args, kwargs, st)
+        if isinstance(callee, (ClassValue, BoundMethod, Obj)):
+            return self.call_object(callee, args, kwargs, st, node)
+        raise Unsupported('call of {} ({})'.format(callee, unparse(node)))
+
     def int_call(self, node, st, caught):
         """int(x, base=0) / int(x, 0) -> (value, status)"""
         base = [kw for kw in node.keywords if kw.arg == 'base']
@@ -208,6 +240,17 @@ class CallMixin:
             if isinstance(v, (int, bool)):
                 return int(v), False
             if isinstance(v, (View, Bits)):
+                return v, False
+            if isinstance(v, str):
+                try:
+                    return int(v), False
+                except ValueError:
+                    if caught is not None and (caught == 'all' or 'ValueError' in caught):
+                        return v, True
+                    return None, 'dead'
+            if isinstance(v, Param) and caught is not None and (caught == 'all' or 'ValueError' in caught):
+                # decimal conversion only: hex / octal / binary spellings take the handler.  The number denoted is the same;
+                # the operand does not count as normalised with base 0 (register_spellings_normalised)
                 return v, False
             raise Unsupported('int() of {}'.format(unparse(node)))
         else:
